@@ -596,4 +596,9 @@ def units(tier):
         us.append({"name": "tcp send T=2", "fn": tcp, "params": {"mode": "send", "T": 2}, "budget_s": B_})
         us.append({"name": "tcp close eager", "fn": tcp, "params": {"mode": "close", "eager": True}, "budget_s": B_})
         us.append({"name": "unix recv T=2", "fn": unix, "params": {"mode": "recv", "T": 2}, "budget_s": B_})
+        us.append({"name": "unix recv-cancel T=2", "fn": unix, "params": {"mode": "recv-cancel", "T": 2, "cj_fixed": 1}, "budget_s": B_})
+        us.append({"name": "unix recv-cancel eager", "fn": unix, "params": {"mode": "recv-cancel", "eager": True}, "budget_s": B_})
+        us.append({"name": "unix send busy eager", "fn": unix, "params": {"mode": "send-busy", "eager": True}, "budget_s": B_})
+        us.append({"name": "tcp close T=2 (cycle offset 0)", "fn": tcp, "params": {"mode": "close", "T": 2, "xj_fixed": 0}, "budget_s": B_})
+        us.append({"name": "tcp close in cancelled scope, eager", "fn": tcp, "params": {"mode": "close", "close_cancelled": True, "eager": True}, "budget_s": B_})
     return us
